@@ -52,13 +52,20 @@ AddExactTP(m, p, len) == AtLocal(m, p, Plus3(Local(m, p), len))
 \* the full addition: exact part first, then months, then years
 AddDurTP(m, p, d) == AddYearsTP(m, AddMonthsTP(m, AddExactTP(m, p, d.len), d.mo), d.y)
 
-\* clause form for recorded results (tolerant in the time of day only when fractions are involved)
+\* clause form for recorded results (tolerant in the time of day only when fractions are involved).
+\* A start point written as 24:00 denotes next-day 00:00; C05 does not say whether month/year arithmetic
+\* applies to the written date or to the normalised one, and "time of day preserved" admits 24:00 itself, so for
+\* such a start point with no exact part either reading is accepted (compared as instants).
 AddDurClause(m, p, d, q) ==
-  LET e == AddDurTP(m, p, d) IN
+  LET e  == AddDurTP(m, p, d)
+      e2 == AddYearsTP(m, AddMonthsTP(m, p, d.mo), d.y)
+      alt == p.hh = 24 /\ d.len = Zero3
+  IN
   IF ~ValidTP(m, q) THEN "result-invalid"
-  ELSE IF q.hh >= 24 THEN "result-hour-24"
+  ELSE IF q.hh >= 24 /\ ~alt THEN "result-hour-24"
   ELSE IF q.rep # p.rep THEN "representation-changed"
   ELSE IF ~SameZone(p, q) THEN "offset-changed"
+  ELSE IF alt THEN (IF Inst(m, q) = Inst(m, e) \/ (ValidDate(m, e2) /\ Inst(m, q) = Inst(m, e2)) THEN "ok" ELSE "date")
   ELSE IF Tol(p, d, q) = 0 /\ ~SameDate(e, q) THEN "date"
   ELSE IF Tol(p, d, q) = 0 /\ ~(e.sod = q.sod /\ e.us = q.us) THEN "time-of-day"
   ELSE IF Tol(p, d, q) = 1 /\ ~Near3(Inst(m, q), Inst(m, e), 1) THEN "instant"
@@ -77,7 +84,8 @@ OneSign(d) == (d.d >= 0 /\ d.h >= 0 /\ d.mi >= 0 /\ d.s >= 0 /\ Le3(Zero3, d.len
 SubClause(m, a, b, d) ==
   IF d.y # 0 \/ d.mo # 0 THEN "not-exact"
   ELSE IF d.wk THEN "week-form"
-  ELSE IF ~OneSign(d) THEN "mixed-signs"
+  \* (a fractional difference within 2 us of zero has no numerically meaningful sign)
+  ELSE IF ~(OneSign(d) \/ (d.frac /\ Near3(d.len, Zero3, 2))) THEN "mixed-signs"
   ELSE IF Abs(d.h) >= 24 THEN "hours-out-of-range"
   ELSE IF Abs(d.mi) >= 60 THEN "minutes-out-of-range"
   ELSE IF Abs(d.s) >= 60 THEN "seconds-out-of-range"
